@@ -420,7 +420,12 @@ func c18Case(r *obs.Run, i int) {
 			default:
 				a := 10 * math.Log10(math.Pow(10, float64(q)/10)-1)
 				want := math.Floor(a + 0.5)
-				judged := !nearTie(a) && want >= -127 && want <= 126
+				// 127 is the largest value a Solexa score can hold (Phred 127 converts to it exactly); beyond it the value is
+				// not representable and only saturation is asked for: the answer must not fall below 127
+				judged := !nearTie(a) && want >= -127 && want <= 127
+				if want > 127 && got != 127 {
+					r.Violate("phred-to-solexa", fmt.Sprintf("Qphred(%d).Qsolexa()=%d: the analytic value %g lies above the Solexa range, whose largest score is 127", q, got, a), c18w{"p2s", q, "", got, 127})
+				}
 				r.Note(fmt.Sprint("p2s/", q), judged)
 				if !judged {
 					continue
